@@ -26,9 +26,9 @@ CLAIMED = {
    technique=TECH),
  "C06": dict(
    category="model_checking",
-   text="Structure rule of blinded segwit addresses at the point where it is enforced (blech32 CheckedHrpstring::validate_segwit): accepted => payload = 33-byte key + witness program of 2..40 bytes (20|32 for v0), canonical zero padding of at most 4 bits; payload length per shard (33+p, p in {0,1,2,20,32,40,41}; more in thorough), version / leading / padding symbols symbolic. Re-derives the 0/1-byte-program defect when its fix is reverted.",
+   text="Structure rule of blinded segwit addresses at the point where it is enforced (blech32 CheckedHrpstring::validate_segwit): accepted => payload = 33-byte key + witness program of 2..40 bytes (20|32 for v0), canonical zero padding of at most 4 bits; payload length per shard (33+p, p in {0,1,2,20,32,40,41}; more in thorough), version / leading / padding symbols symbolic. Re-derives the 0/1-byte-program defect when its fix is reverted. Base58 payloads (20/21/22/55/56 bytes, fully symbolic, all three networks) through the private payload parser: accepted => exact layout and length, hash = last 20 bytes, and at most one network accepts.",
    design_ref="DESIGN.md §7.4 C06",
-   note="NARROW: reached through a cfg(kani) constructor hook after the character scan; Address::from_str/parse_with_params, base58, Display, network exclusivity and text round trip are NOT decided (str::rfind diverges in CBMC)." + TRUST,
+   note="NARROW: both parts are reached through cfg(kani) hooks behind the text layer; Address::from_str/parse_with_params themselves, the base58check/bech32 text codecs, Display and text round trip are NOT decided (str::rfind diverges in CBMC)." + TRUST,
    technique=TECH),
  "C07": dict(
    category="model_checking",
@@ -38,7 +38,7 @@ CLAIMED = {
    technique=TECH),
  "C08": dict(
    category="model_checking",
-   text="PartiallySignedTransaction::locktime() compared with a reference written from BIP370 for every assignment of {none,time,height,both} requirements with arbitrary values to n = 0..3 inputs (n per shard) and every fallback; also proves the two unreachable!() arms unreachable. Found the height-vs-time preference defect (fixed).",
+   text="PartiallySignedTransaction::locktime() compared with a reference written from BIP370 for every assignment of {none,time,height,both} requirements with arbitrary values to n = 0..3 inputs (n per shard) and every fallback; also proves the two unreachable!() arms unreachable. Found the height-vs-time preference defect (fixed). Plus: Input::asset_issuance() (the issuance view extract_tx uses) reflects amount and inflation-keys fields by the same rule (commitment, else explicit, else null).",
    design_ref="DESIGN.md §2 C08",
    note="NARROWING: only the lock-time clause is decided; tx->PSET->tx identity and unique-id invariance are not (PSET extract/txid hashing over heap structures did not fit: DESIGN §7). More than 3 inputs (4 in thorough) outside." + TRUST,
    technique=TECH),
